@@ -37,6 +37,35 @@ type c12AckTag struct {
 	convs      []string
 }
 
+// c12Canon makes a connection key and its payload rendering independent of which endpoint is called the
+// client: a stream whose earlier packets arrive later is reset and may turn around, keeping its id.
+func c12Canon(key, runs string) (string, string) {
+	a, b, _ := strings.Cut(key, ">")
+	if a <= b {
+		return key, runs
+	}
+	var out []string
+	for _, r := range strings.Split(runs, ",") {
+		if strings.HasPrefix(r, "0:") {
+			out = append(out, "1:"+r[2:])
+		} else if strings.HasPrefix(r, "1:") {
+			out = append(out, "0:"+r[2:])
+		} else {
+			out = append(out, r)
+		}
+	}
+	return b + ">" + a, strings.Join(out, ",")
+}
+
+func c12CanonMap(m map[string]string) map[string]string {
+	out := map[string]string{}
+	for k, v := range m {
+		ck, cv := c12Canon(k, v)
+		out[ck] = cv
+	}
+	return out
+}
+
 func copyTree(src, dst string) error {
 	return filepath.WalkDir(src, func(p string, d fs.DirEntry, err error) error {
 		if err != nil {
@@ -85,7 +114,8 @@ func c12ReadAck(r *vsRun, ack *c12Ack) {
 		streams, err := veVisible(m.indexes)
 		if err == nil {
 			for id, s := range streams {
-				ack.ids[fmt.Sprintf("%s:%d>%s:%d", s.ClientHostIP(), s.ClientPort, s.ServerHostIP(), s.ServerPort)] = id
+				ck, _ := c12Canon(fmt.Sprintf("%s:%d>%s:%d", s.ClientHostIP(), s.ClientPort, s.ServerHostIP(), s.ServerPort), "")
+				ack.ids[ck] = id
 			}
 		}
 	})
@@ -184,7 +214,8 @@ func c12Verify(r *vsRun, ack *c12Ack, inFlight map[string]bool, crashed bool) {
 	content := map[string]string{}
 	err = v.AllStreams(context.Background(), func(sc StreamContext) error {
 		s := sc.Stream()
-		key := fmt.Sprintf("%s:%d>%s:%d", s.ClientHostIP(), s.ClientPort, s.ServerHostIP(), s.ServerPort)
+		key, _ := c12Canon(fmt.Sprintf("%s:%d>%s:%d", s.ClientHostIP(), s.ClientPort, s.ServerHostIP(), s.ServerPort), "")
+		flipped := key != fmt.Sprintf("%s:%d>%s:%d", s.ClientHostIP(), s.ClientPort, s.ServerHostIP(), s.ServerPort)
 		if _, dup := got[key]; dup {
 			return fmt.Errorf("connection %s is visible twice", key)
 		}
@@ -195,7 +226,11 @@ func c12Verify(r *vsRun, ack *c12Ack, inFlight map[string]bool, crashed bool) {
 		}
 		var runs []string
 		for _, run := range vidx.DataToRuns(data) {
-			runs = append(runs, fmt.Sprintf("%d:%s", run.Dir, run.Data))
+			d := run.Dir
+			if flipped {
+				d = 1 - d
+			}
+			runs = append(runs, fmt.Sprintf("%d:%s", d, run.Data))
 		}
 		content[key] = strings.Join(runs, ",")
 		return nil
@@ -219,14 +254,10 @@ func c12Verify(r *vsRun, ack *c12Ack, inFlight map[string]bool, crashed bool) {
 	for i := range r.tr.Written {
 		all[fmt.Sprintf("cap%02d.pcap", i)] = true
 	}
-	possible := r.expectedStreams(all)
+	possible := c12CanonMap(r.expectedStreams(all))
 	for key := range got {
 		if _, ok := possible[key]; !ok {
-			// orientation may differ when only a later part of a flow was imported
-			a, b, _ := strings.Cut(key, ">")
-			if _, ok := possible[b+">"+a]; !ok {
-				r.fatalf("after the restart a stream %s is visible that no capture contains", key)
-			}
+			r.fatalf("after the restart a stream %s is visible that no capture contains", key)
 		}
 	}
 	// content: that of the delivered imports, or of those plus the captures of an import job whose index file
@@ -236,12 +267,12 @@ func c12Verify(r *vsRun, ack *c12Ack, inFlight map[string]bool, crashed bool) {
 	for n := range r.importedFiles {
 		imported[n] = true
 	}
-	want := r.expectedStreams(imported)
+	want := c12CanonMap(r.expectedStreams(imported))
 	// an import job parked at the crash took a prefix of the queue that existed then
 	alts := []map[string]string{want}
 	for _, n := range r.maybeQueue {
 		imported[n] = true
-		alts = append(alts, r.expectedStreams(imported))
+		alts = append(alts, c12CanonMap(r.expectedStreams(imported)))
 	}
 	// per conversation: queued captures that never got imported are still replayed by later imports for the
 	// flows those touch, so each stream may correspond to a different prefix
